@@ -9,7 +9,7 @@ import torch
 from hypothesis import strategies as st
 
 from kappadata.datasets import KDDataset
-from vlib.core import Case, CaseTimeout, Facet, Refused, Violation
+from vlib.core import Case, CaseTimeout, Facet, Refused, Violation, guarded
 
 # thorough-tier budgets of every facet are multiplied by this factor (sized for ~5-8 min on 16 cores)
 THOROUGH_SCALE = 4
@@ -276,8 +276,18 @@ def check_subset_wrapper(spec):
     return Case(_is_boundary(p, n) or _is_boundary(q, n) or n <= 1, ["percent"], 3)
 
 
+def _unseeded_follows_global_state(kind, spec):
+    """without a seed the wrappers draw from the process-global numpy generator (the library's documented way to get reproducible runs is
+    np.random.seed): two builds under the SAME global state select the same samples"""
+    a = selection(kind, spec, {}, 5)
+    b = selection(kind, spec, {}, 5)
+    if a != b:
+        raise Violation(f"unseeded-selection-not-reproducible-under-equal-global-state:{kind}", f"{a} vs {b}")
+
+
 def check_shuffle(spec):
     n = len(spec["classes"])
+    _unseeded_follows_global_state("ShuffleWrapper", spec)
     sel = run("ShuffleWrapper", spec, dict(seed=spec["seed"]))
     if sorted(sel) != list(range(n)):
         raise Violation("shuffle-not-a-permutation", str(sel))
@@ -299,6 +309,7 @@ def check_sort_by_class(spec):
 
 def check_intra_class_shuffle(spec):
     n, cl = len(spec["classes"]), spec["classes"]
+    _unseeded_follows_global_state("IntraClassShuffleWrapper", spec)
     sel = run("IntraClassShuffleWrapper", spec, dict(seed=spec["seed"]))
     if sorted(sel) != list(range(n)):
         raise Violation("intra-class-shuffle-not-a-permutation", str(sel))
@@ -470,7 +481,8 @@ def _two_percents():
 
 
 S_CLASS_FILTER = with_layout(st.fixed_dictionaries({
-    "V": st.lists(st.integers(0, 7), max_size=4, unique=True),
+    # class ids / names to filter by; two-digit ids give names no dataset has ("name12") - they select nothing, whatever they start with
+    "V": st.lists(st.one_of(st.integers(0, 7), st.integers(0, 7), st.integers(10, 79)), max_size=4, unique=True),
     "how": st.sampled_from(["valid_classes", "invalid_classes", "valid_class_names", "invalid_class_names"]),
     "wide": st.sampled_from([None, None, 1, 2, 3, 4, 5, 6, 7, 8])}))
 S_PERCENT = with_layout(st.tuples(_two_percents(), st.booleans(), st.booleans()).map(
@@ -497,6 +509,9 @@ S_CLASSWISE = with_layout(st.one_of(
 
 
 def F(name, fn, strat, q=600, t=8000):
+    # an exception raised inside the library for a generated, accepted configuration is a violation (constructor assertions are handled
+    # as refusals inside run())
+    fn = guarded(name, fn)
     return Facet(name, fn, strategy=lambda tier, s=strat: s, budget={"quick": q, "thorough": t},
                  shards={"quick": 1, "thorough": 4}, min_nontrivial={"quick": q // 12, "thorough": t // 12}, case_timeout=60)
 
